@@ -79,6 +79,7 @@ func runC01(p *core.Prog, r *core.Report) {
 	r.Rule("C01-R2", "sanitizer: inside the line only constants, the escaping function, closed-alphabet formatters, encoder output (minus its newline) and the handler's own pre-rendered bytes are appended; colour-only sinks are out of scope", 20)
 	r.Rule("C01-R3", "escape table: evaluated over all 128 ASCII bytes and every Unicode scalar value, a character is passed through raw only if JSON allows it inside a string, and otherwise is replaced by exactly one legal escape denoting it (invalid UTF-8 → \\ufffd)", 3)
 	r.Rule("C01-R4", "error containment: every path of the marshal helper appends something (an encoding error is rendered as an escaped string, the value position never stays empty)", 1)
+	r.Rule("C01-R5", "source location: every function that captures the caller with runtime.Callers(3, …) is called only from entry points that are not themselves called from inside the logger package (fixed stack depth)", 3)
 	r.NotDecided = append(r.NotDecided, "that decoded values equal the inputs (round-trip of numbers/time through strconv/time; U+FFFD substitution result)", "attribute order beyond: emitted in iteration order of the same loops")
 	r.Trusted = append(r.Trusted, "strconv.AppendInt/Uint/Bool output is a JSON number/literal", "Time.AppendFormat(RFC3339Nano) emits only digits, '-', ':', '.', 'T', 'Z', '+'", "encoding/json Encoder.Encode writes one valid JSON value followed by '\\n'", "slog.Value.Resolve never returns a LogValuer kind")
 
@@ -107,6 +108,36 @@ func runC01(p *core.Prog, r *core.Report) {
 			r.OK("C01-R2", c, p.Pos(s.In.Pos()), "constant bytes "+fmtBytes(s.Bytes)+" (grammar checked by C01-R1)")
 		case s.Class == "preformatted", s.Class == "sanitizer-internal", s.Class == "json-value", s.Class == "closed:number":
 			r.OK("C01-R2", c, p.Pos(s.In.Pos()), s.Class)
+		case s.Class == "closed:float":
+			// strconv.AppendFloat writes NaN, +Inf, -Inf, which are not JSON: only behind explicit finiteness tests
+			call := s.In.(*ssa.Call)
+			val := call.Call.Args[1]
+			cut := sx.Cut{Edges: map[sx.Edge]bool{}}
+			seenNaN, seenInf := false, false
+			sx.Instrs(s.Fn, func(in ssa.Instruction) {
+				g, ok := in.(*ssa.Call)
+				if !ok || len(g.Call.Args) == 0 || sx.Unspill(g.Call.Args[0]) != sx.Unspill(val) {
+					return
+				}
+				n := sx.CalleeName(g)
+				if n != "math.IsNaN" && n != "math.IsInf" {
+					return
+				}
+				for _, u := range *g.Referrers() {
+					if iff, ok := u.(*ssa.If); ok {
+						e := sx.Edge{From: iff.Block(), Idx: 1}
+						if sx.MustPass(s.Fn, nil, s.In, sx.Cut{Edges: map[sx.Edge]bool{e: true}}) {
+							if n == "math.IsNaN" {
+								seenNaN = true
+							} else {
+								seenInf = true
+							}
+						}
+					}
+				}
+			})
+			_ = cut
+			r.Check(seenNaN && seenInf, "C01-R2", c, p.Pos(s.In.Pos()), "strconv.AppendFloat behind !IsNaN and !IsInf", "a float is written with strconv.AppendFloat without excluding NaN and ±Inf, whose spellings (NaN, +Inf, -Inf) are not JSON: the line does not parse instead of carrying an error string")
 		case s.Class == "closed:time":
 			bad := strings.ContainsAny(s.Detail, "\"\\\n")
 			r.Check(!bad, "C01-R2", c, p.Pos(s.In.Pos()), "time layout "+s.Detail, "time layout contains a character that needs escaping in JSON")
@@ -221,9 +252,43 @@ func runC01(p *core.Prog, r *core.Report) {
 		r.Check(ok, "C01-R4", fnName(fn)+": every path writes a value", p.FuncPos(fn), "no return without an append (error → escaped string)", "a path of the marshal helper returns without appending anything: `\"key\":` would be followed by ',' or '}'")
 	}
 
+	checkCallerFrames(p, r, "C01-R5")
+
 	// ---- R1
 	runEmitJSON(p, r, h, san)
 }
 
 var _ = ssa.Value(nil)
 var _ = core.ModPath
+
+// checkCallerFrames: functions that capture the program counter with runtime.Callers(skip, …) assume a fixed
+// number of logger frames above the user's call.
+func checkCallerFrames(p *core.Prog, r *core.Report, rule string) {
+	for _, fn := range p.PkgFuncs("logger") {
+		sx.Instrs(fn, func(in ssa.Instruction) {
+			c, ok := in.(*ssa.Call)
+			if !ok || sx.CalleeName(c) != "runtime.Callers" {
+				return
+			}
+			skip, isC := sx.ConstInt(c.Call.Args[0])
+			var deep []string
+			okDepth := isC && skip == 3
+			if !isC {
+				deep = append(deep, "skip count is not constant")
+			} else if skip != 3 {
+				deep = append(deep, fmt.Sprintf("skip count %d: runtime.Callers → %s → exported method → caller needs 3", skip, fn.Name()))
+			}
+			// every caller of fn must be an entry point: not itself called from inside the logger package
+			for _, cs := range staticCalls(p).callers[fn] {
+				for _, cs2 := range staticCalls(p).callers[rootFn(cs.Caller)] {
+					if rootFn(cs2.Caller).Pkg == fn.Pkg {
+						okDepth = false
+						deep = append(deep, fmt.Sprintf("%s reaches %s through %s: one frame more than the skip count assumes, the record's source is a line of the logger itself", fnName(cs2.Caller), fn.Name(), fnName(cs.Caller)))
+					}
+				}
+			}
+			r.Check(okDepth, rule, "caller frame: "+fn.Name()+" is reached with a fixed stack depth", p.Pos(in.Pos()), fmt.Sprintf("runtime.Callers(3) and %d direct entry points, none called from inside the package", len(staticCalls(p).callers[fn])), strings.Join(uniq(deep), "; "))
+		})
+	}
+
+}
